@@ -314,7 +314,7 @@ def compare(prop, ops, impl, model, nontrivial=None):
 
 
 def write_replay(prop, seed, n, payload):
-    d = os.path.join(VERIF, "replays", prop)
+    d = os.path.join(os.environ.get("VERIF_REPLAY_DIR") or os.path.join(VERIF, "replays"), prop)
     os.makedirs(d, exist_ok=True)
     path = os.path.join(d, "%s-%d.json" % (seed, n))
     with open(path, "w") as f:
@@ -323,7 +323,9 @@ def write_replay(prop, seed, n, payload):
 
 
 def write_evidence(prop, ev):
-    d = os.path.join(VERIF, "evidence")
+    # (mutation / seeded-change runs against a scratch tree set VERIF_EVIDENCE_DIR so that the committed
+    # evidence, which must come from runs against /repo itself, is not overwritten)
+    d = os.environ.get("VERIF_EVIDENCE_DIR") or os.path.join(VERIF, "evidence")
     os.makedirs(d, exist_ok=True)
     with open(os.path.join(d, prop + ".json"), "w") as f:
         json.dump(ev, f, indent=1)
